@@ -130,7 +130,7 @@ pub open spec fn opt_toks(o: Option<TokenStream>) -> Seq<Tok> {
 /// a recorded wrapper is an operator that can take the inner chain as a closure: one expression
 /// operand, not a member access (the ten wrapper-capable operators all have this shape)
 pub open spec fn frame_wrapper_ok<'a>(p: ActionExprPos<'a>) -> bool {
-    p.expr.expr.operands().len() == 1 && !must_not_hoist(p.expr.expr.ctor_of())
+    p.expr.expr.operands().len() == 1 && !must_not_hoist(p.expr.expr.ctor_of()) && !(p.expr.expr is Initial)
 }
 
 /// representation invariant of `StepAcc::step_streams`: at least one frame; every frame below the top
@@ -184,4 +184,33 @@ pub broadcast proof fn lemma_not_hoisted(e: ActionExpr, x: ActionExpr, b: usize,
 /// the top of the stack after closing the innermost wrapper
 pub open spec fn wrapped_top<'a>(is_async: bool, st: Seq<(TokenStream, Option<ActionExprPos<'a>>)>) -> Seq<Tok> {
     spliced(is_async, st[st.len() - 2].0@, st[st.len() - 2].1->0.expr.expr.ctor_of(), st[st.len() - 1].0@)
+}
+
+// ---------------------------------------------------------------- one branch of one step (generate_step, R15)
+
+/// number of wrappers open after the first n actions of a step
+pub open spec fn wdepth<'a>(acts: Seq<&'a ExprGroup<ActionExpr>>, n: int) -> int
+    decreases n
+{
+    if n <= 0 { 0 }
+    else {
+        wdepth(acts, n - 1) + match acts[n - 1].action.move_type { MoveType::Wrap => 1int, MoveType::Unwrap => -1int, MoveType::None => 0int }
+    }
+}
+
+/// what the parser guarantees about the actions of one step of one branch (builder: `balanced`; parser: `group_wf`,
+/// `lemma_wrapper_frame`): a `<<<` only closes a `>>>` of the same step, a `>>>` sits on a wrapper-capable operator,
+/// everything else is printable
+pub open spec fn step_acts_ok<'a>(acts: Seq<&'a ExprGroup<ActionExpr>>) -> bool {
+    &&& forall|n: int| 0 <= n <= acts.len() ==> #[trigger] wdepth(acts, n) >= 0
+    &&& forall|k: int| 0 <= k < acts.len() ==> match (#[trigger] acts[k]).action.move_type {
+            MoveType::Wrap => acts[k].expr.operands().len() == 1 && !must_not_hoist(acts[k].expr.ctor_of()) && !(acts[k].expr is Initial),
+            MoveType::Unwrap => true,
+            MoveType::None => printable(acts[k].expr),
+        }
+}
+
+/// invariant of the fold over a step's actions: the stack is well formed and as deep as the open wrappers
+pub open spec fn frame_inv<'a>(st: Seq<(TokenStream, Option<ActionExprPos<'a>>)>, acts: Seq<&'a ExprGroup<ActionExpr>>, n: int) -> bool {
+    stack_wf(st) && st.len() == 1 + wdepth(acts, n)
 }
